@@ -302,3 +302,32 @@ func VHPubNoPanic() {
 	}
 	vCover("nopanic done")
 }
+
+// VHPubUnsubConc: two goroutines unsubscribe different channels at the same time (optionally
+// while a third publishes): each Unsub closes exactly its own channel and reports success,
+// the remaining subscriber stays subscribed and is still served.
+func VHPubUnsubConc() {
+	s := c10newOpt(3, false)
+	ev, ev2 := vInt("ev"), vInt("ev")
+	vAssume(ev != ev2)
+	s.receivers()
+	a := vChoose("first", 3)
+	b := (a + 1 + vChoose("second", 2)) % 3
+	rest := 3 - a - b
+	var ea, eb error
+	vGo(func() { ea = s.ps.Unsub(s.subs[a]) })
+	vGo(func() { eb = s.ps.Unsub(s.subs[b]) })
+	if vChoose("publisher", 2) == 1 {
+		vGo(func() { s.ps.PubSync(ev) })
+	}
+	vWait()
+	vAssert(ea == nil && eb == nil, "concurrent Unsub calls of different subscribed channels both succeed")
+	s.ps.PubSync(ev2)
+	vWait()
+	vAssert(s.closed[a] && s.closed[b], "each Unsub closes exactly the channel it removes")
+	vAssert(!s.closed[rest], "the remaining subscriber's channel stays open")
+	vAssert(c10count(s.logs[rest], ev2) == 1, "the remaining subscriber is still served")
+	vAssert(c10count(s.logs[a], ev2) == 0 && c10count(s.logs[b], ev2) == 0, "nothing is delivered to a channel after its removal")
+	vAssert(s.ps.Unsub(s.subs[a]) == ErrAlreadyUnsubscribed, "a removed channel is reported as already unsubscribed")
+	vCover("unsubconc done")
+}
